@@ -347,6 +347,76 @@ def behaviour(res, rng, tier):
         C.scratch_cleanup(d)
 
 
+def split_entries(ans):
+    """`ok A>forB{body};C>forD{body}` -> {header: body} (bodies contain `;` only inside braces)."""
+    out, cur, depth = [], "", 0
+    for ch in ans[3:]:
+        if ch == "{":
+            depth += 1
+        elif ch == "}":
+            depth -= 1
+        if ch == ";" and depth == 0:
+            out.append(cur); cur = ""
+        else:
+            cur += ch
+    if cur:
+        out.append(cur)
+    res = {}
+    for e in out:
+        k = e.find("{")
+        res[e[:k] if k >= 0 else e] = e[k:] if k >= 0 else ""
+    return res
+
+
+def model_guided_search(res, disagreements):
+    """Where expansion and model disagree on the impl set of an item, the impls the model derives from the documented
+    rules must exist with the real macro and no other conversion impl may: the differing header is probed."""
+    cf = C.CaseFile(PRELUDE)
+    descs = {}
+    k = 0
+    for dis in disagreements:
+        d, src = dis["derive"], dis["source"]
+        if d == "Constructor" or not dis["model_full"].startswith("ok") or not dis["impl_full"].startswith("ok") or "r#" in src or "__" in dis["model_full"]:
+            continue
+        m, i = split_entries(dis["model_full"]), split_entries(dis["impl_full"])
+        lines = []
+        for hdr in sorted(set(m) ^ set(i)):
+            if ">for" not in hdr:
+                continue
+            a, b = hdr.split(">for", 1)
+            fix = lambda t: t.replace("'__derive_more_intomut", "'static mut ").replace("'__derive_more_into", "'static ")
+            want = "true" if hdr in m else "false"
+            lines.append(f'check("{k}", "impl From<{a}> for {b} exists", has_impl!({fix(b)}: From<{fix(a)}>).to_string(), String::from("{want}"));')
+        if not lines:
+            continue
+        cf.add(k, f"#[derive(derive_more::{d})] pub {src}\npub fn run() {{ {' '.join(lines)} }}", main_call=f"c{k}::run();")
+        descs[str(k)] = f"#[derive({d})] {src}"
+        k += 1
+    if not k:
+        return 0
+    dcr = C.scratch_crate("c08-guided", cf.source('unsafe { println!("DONE checks={} fails={}", CHECKS, FAILS); }'))
+    try:
+        rc, out, err = C.scratch_run(dcr)
+        if "DONE" not in out:
+            rc2, diags, err2 = C.scratch_check(dcr)
+            by, stray = cf.errors_by_case(diags)
+            for cid, errs in list(by.items())[:6]:
+                res.violation("guided-compile:" + descs[str(cid)], f"{descs[str(cid)]}: does not compile: {errs[0][:240]}",
+                              {"cmd": "compile", "source": descs[str(cid)], "errors": errs[:3]})
+            return k
+        seen = set()
+        for l in out.splitlines():
+            if l.startswith("FAIL|"):
+                _, cid, what, got, want = l.split("|", 4)
+                if (cid, what) not in seen and len(seen) < 8:
+                    seen.add((cid, what))
+                    res.violation("impl-set:" + descs[cid] + "|" + what, f"{descs[cid]}: {what} is {got}, the documented rules give {want}",
+                                  {"cmd": "behaviour", "source": descs[cid], "what": what, "got": got, "want": want})
+        return k
+    finally:
+        C.scratch_cleanup(dcr)
+
+
 def run(tier):
     res = C.Result("C08", tier)
     rng = C.Rng(C.seed())
@@ -373,8 +443,12 @@ def run(tier):
                 res.violation("panic:" + src, f"#[derive({d})] {src}: the expander panicked ({ia[:160]})",
                               {"cmd": f"expand {d}", "source": src, "answer": ia[:300]})
             if ma is not None and got != ma:
-                corr_bad.append({"derive": d, "source": src, "impl": got[:500], "model": ma[:500]})
+                corr_bad.append({"derive": d, "source": src, "impl": got[:500], "model": ma[:500], "impl_full": got, "model_full": ma})
         checks, ntypes = behaviour(res, rng, tier)
+        if corr_bad and not res.violations:
+            model_guided_search(res, sorted(corr_bad, key=lambda c: len(c["source"]))[:16])
+        for c in corr_bad:
+            c.pop("impl_full", None); c.pop("model_full", None)
         extra = [("correspondence: From / Into / Constructor impl sets and bodies == model (token text)", lean_ok and not corr_bad)]
         cov = {
             "evaluations": len(cases) + checks,
